@@ -36,6 +36,8 @@ for name, spec in b['files'].items():
     else:
         with open(path, 'wb') as f:
             f.write(bytes(spec['bytes']))
+    if spec.get('old_mtime'):
+        os.utime(path, (978307200, 978307200))      # as cp -p / tar x / rsync -t do: the content is new, the modification time is not
 sys.exit(b['exit'])
 '''
 
@@ -79,13 +81,16 @@ def snapshot(d):
     return out
 
 
+CONTROL_OK = [True]
+
+
 def text_of(rnd, nlines, allow_specific=True, token_pool=()):
     """A text whose FIRST line is always a plain line (the one perturbations edit)."""
     lines = [rnd.choice(FAR_DATES) if rnd.random() < 0.3 else rnd.choice(PLAIN)]
     for _ in range(nlines - 1):
         r = rnd.random()
         if r > 0.9:
-            lines.append(rnd.choice(ODD_BREAKS))
+            lines.append(rnd.choice(ODD_BREAKS if CONTROL_OK[0] else [x for x in ODD_BREAKS if not re.search('[\x00-\x08\x0b\x0c\x0e-\x1f]', x)]))
         elif allow_specific and r < 0.25:
             lines.append(rnd.choice(SPECIFIC))
         elif token_pool and r < 0.4:
@@ -98,6 +103,8 @@ def text_of(rnd, nlines, allow_specific=True, token_pool=()):
 def make_case(rnd, wd, shape, tmpdir_tokens_with_one_iteration=True, dated_first_line=None):
     """shape: list of output names among 'o1' (text file), 'o2' (binary file).  Returns the case description."""
     os.makedirs(wd, exist_ok=True)
+    # (control characters next to $TMPDIR mentions are the known finding D37, recorded under C11: the C12 driver avoids them)
+    CONTROL_OK[0] = bool(tmpdir_tokens_with_one_iteration)
     import getpass
     import socket
     # {TMPDIR} is replaced by the command itself with the value of $TMPDIR at the time it runs
@@ -112,6 +119,8 @@ def make_case(rnd, wd, shape, tmpdir_tokens_with_one_iteration=True, dated_first
     if 'o1' in shape:
         names['o1'] = rnd.choice(['out1.txt', 'report.log', 'result.csv', 'ünï.txt'])
         files[names['o1']] = {'kind': 'text', 'text': text_of(rnd, rnd.randint(1, 4), token_pool=tokens)}
+    if 'o1' in shape and rnd.random() < 0.25:
+        files[names['o1']]['old_mtime'] = True
     if 'o4' in shape:
         # two text outputs whose names differ only in characters that are not legal in an identifier
         a, b = rnd.choice([('out-1.txt', 'out_1.txt'), ('a b.csv', 'a_b.csv'), ('report.1.log', 'report-1.log')])
@@ -355,3 +364,13 @@ def edit_token_line(text, rnd, token):
     if len(lines) == 1 or (len(lines) == 2 and lines[0] == ''):
         return 'note: ' + token + ' seen\n' + text, 'line with a machine-specific token added'
     return '\n'.join(lines), 'line with a machine-specific token added'
+
+
+def edit_into_token(text, token):
+    """Turn the first line into one that mentions the machine-specific token (same number of lines), provided another
+    line already mentions it (so that the generated test carries an exclusion for it).  Returns (text, done)."""
+    lines = text.split('\n')
+    if len(lines) < 2 or token in lines[0] or not any(token in l for l in lines[1:]):
+        return text, False
+    lines[0] = 'STATUS: CANNOT WRITE %s/ITEMS.db' % token
+    return '\n'.join(lines), True
